@@ -47,6 +47,8 @@ CORPORA = {
     "big": dict(model="MC_Big", quick=dict(MaxPow=20), thorough=dict(MaxPow=21), profiles=DEV_REL, place="both"),
     "mut": dict(kind="mutate", base=["fields", "getters", "dst", "sized", "efi", "elf", "fb", "rsdp", "str", "walk"],
                 quick=dict(count=1500), thorough=dict(count=60000), profiles=DEV_REL, place="both"),
+    "hmut": dict(kind="mutate", header=True, base=["hfields", "hgetters", "hdst", "hwalk"],
+                 quick=dict(count=1500), thorough=dict(count=40000), profiles=DEV_REL, place="both"),
     "load": dict(model="MC_Load", quick=dict(MaxT=72), thorough=dict(MaxT=160), profiles=DEV_REL, place="both"),
     "walk": dict(model="MC_Walk", quick=dict(MaxT=32), thorough=dict(MaxT=40), profiles=DEV_REL, place="both"),
 }
@@ -85,7 +87,7 @@ CHECKS = {
     "C16": dict(corpora=["boxed", "ctor"],
                 rule="new_boxed on all partitions of content of total length 0..MaxTotal into <= 3 slices x 3 header kinds (each also cloned); "
                      "every heap-allocated tag kind x content lengths 0..MaxContent constructed, cloned and dropped under a tracking allocator"),
-    "C09": dict(corpora=["hwalk", "hdst", "hfields", "hgetters", "hload"],
+    "C09": dict(corpora=["hwalk", "hdst", "hfields", "hgetters", "hload", "hmut"],
                 rule="all lazily chosen header-tag sequences (4 type/flag pairs, sizes 0..remaining+9), every header-tag kind at every "
                      "declared size 0..40, conformant tags; every call checked for crash/hang and extents inside the declared header"),
     "C10": dict(corpora=["hload", "cks", "big"],
@@ -93,7 +95,7 @@ CHECKS = {
                 rule="all (length 0..MaxLen, magic right/one-bit-off/zero, checksum right/+1/-1/zero, both architectures) + null; "
                      "calc_checksum on 54 boundary (magic, arch, length) triples judged on 16-bit limbs; all 2^32 lengths x both architectures "
                      "(Multiboot2 magic; two more magics on a sub-grid) swept natively against the congruence the property states"),
-    "C11": dict(corpora=["hfields", "hgetters", "hwalk"],
+    "C11": dict(thorough_extra=["hmut"], corpora=["hfields", "hgetters", "hwalk"],
                 rule="every header-tag kind conformant x 2 fills x 2 positions x 2 architectures, every accessor; all tag sequences "
                      "<= MaxTags over 4 kinds; all lazily chosen walks"),
     "C13": dict(corpora=["find"],
